@@ -1016,6 +1016,9 @@ func contains(a, b *V) (bool, error) {
 		return true, nil
 	case a.K == model.Str && b.K == model.Str:
 		return strings.Contains(a.S, b.S), nil
+	case a.K == model.Float && b.K == model.Float:
+		// yq compares scalars by their text: 0.5 + 0.5 prints 1, which is not the text of 1.0
+		return false, unspec("contains with floats")
 	case a.K == b.K && a.IsScalar():
 		return model.Equal(a, b), nil
 	}
@@ -1215,6 +1218,10 @@ func numResult(f float64) (*V, error) {
 	if math.IsNaN(f) || math.IsInf(f, 0) {
 		return nil, unspec("non-finite arithmetic result")
 	}
+	if f == 0 && math.Signbit(f) {
+		// yq prints -0, which its equality (by text) does not take for 0
+		return nil, unspec("negative zero")
+	}
 	return model.NewFloat(f), nil
 }
 
@@ -1380,6 +1387,8 @@ func binValue(op string, l, r *V) (*V, error) {
 			return out, nil
 		case l.K == model.Str && r.K == model.Str:
 			return nil, evalErr("strings cannot be subtracted")
+		case l.K == model.Null:
+			return nil, unspec("null - %v", r.K)
 		case l.K == model.Map || r.K == model.Map:
 			return nil, evalErr("maps cannot be subtracted")
 		}
@@ -1455,13 +1464,8 @@ func arith(op string, l, r *V) (*V, error) {
 		case "*":
 			res.Mul(a, b)
 		case "/":
-			q, m := new(big.Int).QuoRem(a, b, new(big.Int))
-			if m.Sign() != 0 {
-				// documented: division yields a float when it does not divide evenly
-				f := float64(a.Int64()) / float64(b.Int64())
-				return numResult(f)
-			}
-			res = q
+			// documented (divide.md): "the result during division is calculated as a float", also when it divides evenly
+			return numResult(float64(a.Int64()) / float64(b.Int64()))
 		case "%":
 			res.Rem(a, b)
 		}
